@@ -243,8 +243,8 @@ func c12Run(ctx *Ctx, c c12Case) {
 		if n != root {
 			path = renderSteps(typ, c02IndexedSteps(n, 0xffff))
 		}
-		if strings.Contains(path, ".div") {
-			continue
+		if strings.Contains(path, ".div") || strings.Contains(path, ".`div`") {
+			continue // xhtml is not among the type names of the statement's quantifier
 		}
 		// the path must address exactly this node (C02's findings are not re-reported here)
 		base := evalWith(path, input, nil)
@@ -264,7 +264,28 @@ func c12Run(ctx *Ctx, c c12Case) {
 			continue
 		}
 		anc := fhirAncestors(decl)
-		for _, spec := range c.Specs {
+		// besides the drawn specifiers, every node is asked about its own hierarchy: its
+		// declared type, each ancestor, the base types and the types other kinds specialise
+		// to (one qualified and one unqualified spelling each, alternating)
+		specs := append([]string{}, c.Specs...)
+		own := []string{"Element", "BackboneElement", "Resource", "DomainResource", "Quantity", "string", "integer", "uri"}
+		for a := range anc {
+			own = append(own, a)
+		}
+		sort.Strings(own)
+		for k, a := range own {
+			if (k+c.Pick)%2 == 0 {
+				a = "FHIR." + a
+			}
+			dup := false
+			for _, sp := range specs {
+				dup = dup || sp == a
+			}
+			if !dup {
+				specs = append(specs, a)
+			}
+		}
+		for _, spec := range specs {
 			ts := resolveSpec(spec)
 			src := path + " is " + spec
 			out := evalWith(src, input, nil)
